@@ -50,7 +50,8 @@ Print Assumptions C12_example_deliverable.
 
 (* THE WHOLE FILE.  A free-form source made of one-line statements, statements continued over any
    number of lines (pieces free of quotes, '!', '&' and ';'; any blanks around the ampersands; comment
-   and empty lines between the lines of the statement, delivered right after it),
+   and empty lines between the lines of the statement, delivered right after it), lines holding
+   several statements separated by ';' (each its own item, all with the line's number),
    full-line comments with any indentation and empty lines -- any number of them in any order -- is
    delivered by the reader as exactly one item per statement, in source order, each with the exact
    numbers of its first and last physical line, label and construct name split off; comments and
@@ -82,24 +83,31 @@ Definition ex_file : list lay :=
   [LCont (s2t " 10 nm: x = a +&") (Some 10%N) (Some (s2t "nm")) (s2t "x = a +") [(s2t "   ", s2t " b *")] (s2t "  ") (s2t " c");
    LCom (s2t "  ") (s2t " note"); LBlank;
    LContC (s2t "y = f(&") None None (s2t "y = f(") [CCom (s2t "   ! inside"); CMid (s2t " ") (s2t "1, "); CBlank] (s2t "") (s2t "2)");
+   LSemi (s2t "20 a = 1; b = 2 ;c = 3") (Some 20%N) None (s2t "a = 1") [s2t " b = 2 "; s2t "c = 3"]
+         [(s2t "b = 2", None, None); (s2t "c = 3", None, None)];
    LOne (s2t "  call s(1, 2)") None None (s2t "  call s(1, 2)")].
 Example C12_example_whole_file : Forall good ex_file /\
   flat_map phys ex_file = [s2t " 10 nm: x = a +&"; s2t "   & b *&"; s2t "  & c"; s2t "  ! note"; [];
-                           s2t "y = f(&"; s2t "   ! inside"; s2t " &1, &"; []; s2t "&2)"; s2t "  call s(1, 2)"] /\
+                           s2t "y = f(&"; s2t "   ! inside"; s2t " &1, &"; []; s2t "&2)";
+                           s2t "20 a = 1; b = 2 ;c = 3"; s2t "  call s(1, 2)"] /\
   items false ex_file 0 = [RLine (s2t "x = a + b * c") (Some 10%N) (Some (s2t "nm")) 1 3;
                            RComment (s2t "! note") 4 4 false; RComment [] 5 5 false;
                            RLine (s2t "y = f(1, 2)") None None 6 10; RComment (s2t "! inside") 7 7 false;
-                           RLine (s2t "call s(1, 2)") None None 11 11] /\
+                           RLine (s2t "a = 1") (Some 20%N) None 11 11; RLine (s2t "b = 2") None None 11 11;
+                           RLine (s2t "c = 3") None None 11 11;
+                           RLine (s2t "call s(1, 2)") None None 12 12] /\
   items true ex_file 0 = [RLine (s2t "x = a + b * c") (Some 10%N) (Some (s2t "nm")) 1 3;
                           RLine (s2t "y = f(1, 2)") None None 6 10;
-                          RLine (s2t "call s(1, 2)") None None 11 11] /\
+                          RLine (s2t "a = 1") (Some 20%N) None 11 11; RLine (s2t "b = 2") None None 11 11;
+                          RLine (s2t "c = 3") None None 11 11;
+                          RLine (s2t "call s(1, 2)") None None 12 12] /\
   read_source (flat_map phys ex_file) true false false = items false ex_file 0.
 Proof.
   split; [|split; [|split; [|split]]]; try (vm_compute; reflexivity).
-  repeat constructor; try (vm_compute; reflexivity); try discriminate.
-  - eexists. split; vm_compute; reflexivity.
-  - eexists. split; vm_compute; reflexivity.
-  - eexists. split; vm_compute; reflexivity.
+  repeat (apply Forall_cons || apply Forall_nil); cbn [good]; cbv zeta; repeat split;
+    first [ vm_compute; reflexivity | discriminate | eexists; split; vm_compute; reflexivity
+          | intros a b; reflexivity | vm_compute; Lia.lia
+          | repeat constructor; first [vm_compute; reflexivity | exact I] ].
 Qed.
 Goal True. idtac "ASSUMPTIONS-OF C12_example_whole_file". Abort.
 Print Assumptions C12_example_whole_file.
